@@ -76,7 +76,7 @@ PROPS["C01"] = {
     "level_text": "Theorems (regenerated code): each record* adds exactly +1/+size/+entries with saturation; the aggregator records every delivered tree exactly once in any order. Correspondence+judge: every census number of the real sizes.Graph equals clamp(census) computed over Nat by the Lean spec.",
     "level_note": "Trusted: Lean kernel, go2lean; graph.go is modelled (Agg + Model/Graph) and tied by differential testing; that rev-list delivers exactly the reachable set is git's contract (validated end-to-end, not proved). The fold 'history = clamp(census)' over the whole run is judged per case, not yet a theorem.",
     "technique": "Lean 4 proof over regenerated source + aggregator theorem + differential correspondence with Nat-level spec judge",
-    "modules": ["GitSizer.Props.C01"], "engines": [{"name": "graph", "quick": 6000, "thorough": 400000, "per_shard": 1500}], "rule": _GRAPH_RULE,
+    "modules": ["GitSizer.Props.C01"], "engines": [{"name": "graph", "quick": 6000, "thorough": 400000, "per_shard": 1500}, {"name": "e2e", "quick": 160, "thorough": 16000, "per_shard": 20}], "rule": _GRAPH_RULE,
 }
 PROPS["C02"] = {
     "level_text": "Theorems (regenerated code): AdjustMaxIfNecessary/IfPossible compute max for ALL pairs, record* apply them to commit size, parent count, tree entries, blob size; witness changes iff the maximum does. Judge: the four maxima of the real Graph equal the true maxima, witnesses attain them.",
@@ -88,7 +88,7 @@ PROPS["C03"] = {
     "level_text": "Theorems: depthN is the longest parent chain (upper bound for every chain + explicit witness chain) for every DAG; every registered commit's memo = clamp32(depthN) for every schedule the code accepts (induction over the run); history/tag depth are maxima (regenerated). Judge: commit and tag memos and both maxima equal the Nat-level depth tables for every generated DAG and schedule.",
     "level_note": "As C01; the model has no timestamps, so independence of dates is by construction of the model and checked end-to-end with adversarial dates. Tag-depth memo for arbitrary tag order is judged per case (aggregator instance), not yet a theorem.",
     "technique": "Lean 4 proof (induction over runs, longest-chain characterisation) + differential correspondence",
-    "modules": ["GitSizer.Props.C03"], "engines": [{"name": "graph", "quick": 6000, "thorough": 400000, "per_shard": 1500}], "rule": _GRAPH_RULE,
+    "modules": ["GitSizer.Props.C03"], "engines": [{"name": "graph", "quick": 6000, "thorough": 400000, "per_shard": 1500}, {"name": "e2e", "quick": 160, "thorough": 16000, "per_shard": 20}], "rule": _GRAPH_RULE,
 }
 PROPS["C04"] = {
     "level_text": "Theorems: the regenerated add* methods are joins in a commutative monoid; clamp is a homomorphism from the true Nat algebra; hence for ANY delivery order every finalised tree's memo = clamp(true recursive expansion); recordTree maximises the seven dimensions independently. Judge: all tree memos and the seven maxima of the real Graph equal the clamped Nat expansion.",
@@ -100,7 +100,7 @@ PROPS["C09"] = {
     "level_text": "Theorems: any two valid delivery orders of the same tree set give identical memos, no record remains, the finalisation log is a permutation of the delivered set; commit memos agree across schedules; saturating sums are permutation-invariant. Judge: numbers of the real Graph equal the order-free Nat spec under driver-like, children-first, referrers-first and random schedules.",
     "level_note": "As C01. Storage layout (loose/packed) and root order are checked end-to-end (engine e2e), not proved.",
     "technique": "Lean 4 proof (corollaries of the aggregator theorem) + differential correspondence over schedules",
-    "modules": ["GitSizer.Props.C09"], "engines": [{"name": "graph", "quick": 6000, "thorough": 400000, "per_shard": 1500}], "rule": _GRAPH_RULE,
+    "modules": ["GitSizer.Props.C09"], "engines": [{"name": "graph", "quick": 6000, "thorough": 400000, "per_shard": 1500}, {"name": "e2e", "quick": 160, "thorough": 16000, "per_shard": 20}], "rule": _GRAPH_RULE,
 }
 
 PROPS["C11"] = {
@@ -130,6 +130,17 @@ PROPS["C18"] = {
     "engines": [{"name": "meter", "quick": 480, "thorough": 24000, "per_shard": 30}],
     "rule": "scripts of 1-4 phases with 0-40 Inc() calls, ticker periods 1us/10us/100us/1ms/3ms, random spins and sleeps between calls; non-trivial = at least one tick line was observed besides the final lines.",
     "assumptions": ["each critical section of meter.go is atomic (sync.Mutex) and count is updated atomically"],
+}
+
+_E2E_RULE = "generated repositories written as REAL git repositories (3-20 objects quick, up to 60 thorough; loose / repack -ad / gc; commit dates random, all equal, or children older than parents; noise objects unreachable from the roots) x root selections (all refs, --branches/--tags/--no-tags, ROOT arguments as full and abbreviated ids, reference names, X^{tree}, X:, X:name, X~1, tag^{}, :/text) x name styles; scanned by the real git-sizer binary; non-trivial = git-sizer produced a report (every case is a distinct repository)."
+PROPS["C08"] = {
+    "level_text": "Theorem (regenerated recordBlob): for every sequence of blobs the cited blob was recorded and attains the reported maximum, which bounds every recorded size. Judge (graph + e2e engines): every cited object of all 12 witness slots is reachable from the chosen roots, has the right kind and attains the reported value; every printed description resolves with the real `git rev-parse --verify --end-of-options` to exactly the cited id; --names=none cites nothing.",
+    "level_note": "Partial proof: the path-description algorithm (sizes/path_resolver.go) is not modelled in Lean; git itself is the judge of descriptions (as the property states), on generated repositories only.",
+    "technique": "Lean 4 proof (witness invariant over the regenerated record function) + end-to-end exploration with git rev-parse as oracle",
+    "modules": ["GitSizer.Props.C08"],
+    "engines": [{"name": "e2e", "quick": 320, "thorough": 16000, "per_shard": 20}, {"name": "graph", "quick": 3000, "thorough": 200000, "per_shard": 1500}],
+    "rule": _E2E_RULE,
+    "assumptions": ["git rev-parse is the reference for what a description denotes"],
 }
 
 NOT_APPLICABLE = {p: "check under construction in this commit; see DESIGN.md §8 for the planned machinery" for p in
